@@ -15,7 +15,8 @@ if "--budget" in sys.argv:
     budget = sys.argv[sys.argv.index("--budget") + 1]
 ALL = ["C01", "C02", "C03", "C04", "C05", "C06", "C07", "C09", "C10", "C11", "C13", "C14", "C15", "C16", "C17", "C18"]
 src = os.path.join(wt, "SEEDED", which)
-sid = f"{target}-{which}"
+suffix = sys.argv[sys.argv.index("--suffix") + 1] if "--suffix" in sys.argv else ""
+sid = f"{target}-{which}{suffix}"
 patch = os.path.join(src, "patch.diff")
 demo = next((os.path.join(src, f) for f in sorted(os.listdir(src)) if f.startswith("demo") and f.endswith(".py")), None)
 env = dict(os.environ, PYTHONPATH=wt)
